@@ -233,7 +233,7 @@ def judge(chk, sd, recs, name, shards):
     def one(s):
         pth = os.path.join(sd, "io-%s-%d.ndjson" % (re.sub(r"\W+", "_", name), s))
         vf.write_ndjson(pth, [recs[i] for i in parts[s]])
-        r = vf.tlc(SPEC, "Literals_Trace", "Literals_Trace.cfg", sd, workers=1, files={"io.ndjson": pth}, timeout=1500,
+        r = vf.tlc(SPEC, "Literals_Trace", "Literals_Trace.cfg", sd, workers=1, files={"io.ndjson": pth}, timeout=3000,
                    env=TLC_ENV)
         if r.error or r.violated or r.rc != 0:
             raise vf.NoVerdict("contract evaluation failed (%s): %s %s\n%s" % (name, r.violated, r.error, r.stdout[-2500:]))
@@ -327,7 +327,7 @@ def run():
         f_mc2 = pool.submit(vf.tlc, SPEC, "Literals_MC", "Literals_MCq.cfg", sd, workers=2, timeout=2400, env=TLC_ENV) if thorough else None
         f_nc = pool.submit(vf.tlc, SPEC, "Literals_MC", "Literals_MC_asis.cfg", sd, workers=1, timeout=600, env=TLC_ENV)
         f_gen = pool.submit(vf.tlc, SPEC, "Literals_Gen", "Literals_Gen.cfg" if thorough else "Literals_Genq.cfg", sd,
-                            workers=6 if thorough else 3, timeout=1500, env=TLC_ENV)
+                            workers=6 if thorough else 3, timeout=2400, env=TLC_ENV)
 
         def build():
             ov = vf.make_overlay(sd, [])
@@ -365,7 +365,7 @@ def run():
                     c = {"id": cid, "li": li, "lit": l["lit"], "kind": l["kind"], "ctx": ctx}
                     cases.append(c)
                     for mi, m in enumerate(modes):
-                        if mi == 0 or rng.random() < (0.34 if thorough else 0.2):
+                        if mi == 0 or rng.random() < (0.25 if thorough else 0.2):
                             per_mode[m].append(c)
         byid = {c["id"]: c for c in cases}
         chk.cov["cases"] = len(cases)
